@@ -31,7 +31,7 @@ func (e *segEnt) close() {
 // newBuilt builds a batch and wraps it (in memory or persisted+opened).
 func newBuilt(c *ctx, b zh.Batch, mode uint32, opened bool) (*segEnt, error) {
 	spec, err := zh.SpecOf(c.M, b)
-	must(err)
+	mustH(err)
 	sb, _, err := zh.Build(b, mode)
 	if err != nil {
 		return nil, err
@@ -91,7 +91,7 @@ func specMerge(c *ctx, mc *mergeCase) (sx.V, sx.V) {
 	}
 	a := ask(c, sx.L(sx.N(zh.ReqSpecMerge), sx.List(cs), sx.List(ds)))
 	if _, bad := sx.IsErr(a); bad {
-		must(fmt.Errorf("model rejected spec_merge request"))
+		mustH(fmt.Errorf("model rejected spec_merge request"))
 	}
 	return a.L[0], a.L[1]
 }
@@ -166,6 +166,20 @@ func mergeVerdict(c *ctx, mc *mergeCase, parts []int, checkMaps bool) (bad strin
 	}
 	if p := parseMergedAgainst(c, r.fileData, spec, parts); p != "" {
 		return "merged file decoded by the extracted v16 parser: " + p, r, spec
+	}
+	// segments are immutable: every input still answers as it did before the merge
+	for i, e := range mc.ins {
+		cont, err := zh.Dump(e.seg)
+		if err != nil {
+			return fmt.Sprintf("input %d (%s segment) cannot be read any more after the merge: %v", i, e.prov, err), r, spec
+		}
+		if e.depth > 0 || e.prov == "merged" || e.prov == "re-merged" {
+			cont.NormalizeMerged()
+		}
+		all := []int{pNDocs, pFields, pDicts, pStored, pDV, pThes}
+		if d := partsDiffer(cont.Sx(), e.spec, all); len(d) > 0 {
+			return fmt.Sprintf("input %d (%s segment) answers differently after the merge than before it, in %v\n%s", i, e.prov, d, describeDiff(cont.Sx(), e.spec, all)), r, spec
+		}
 	}
 	return "", r, spec
 }
@@ -438,11 +452,11 @@ func checkC06(c *ctx) {
 	if !mergeRounds(c, c.n(110, 2500), false, parts, false, "C06", nil) {
 		return
 	}
-	boundaryMerges(c, parts)
+	boundaryMerges(c, parts, "C06", 0)
 }
 
 // boundaryMerges: cardinalities cross a multiple of 1024 between inputs and output.
-func boundaryMerges(c *ctx, parts []int) {
+func boundaryMerges(c *ctx, parts []int, prop string, limit int) bool {
 	type bm struct {
 		nd    int
 		cards []int
@@ -452,6 +466,9 @@ func boundaryMerges(c *ctx, parts []int) {
 	cases := []bm{{1100, []int{1024, 1025, 1026, 3}, 1, 1026}, {1100, []int{1023, 1024, 1025}, 2, 1025}}
 	if !c.Quick {
 		cases = append(cases, bm{2100, []int{2048, 2049, 2050, 1024, 1025}, 1, 1026}, bm{1500, []int{1024, 1100}, 80, 1026}, bm{1100, []int{1025, 1024}, 1, 1024})
+	}
+	if limit > 0 && len(cases) > limit {
+		cases = cases[:limit]
 	}
 	for _, g := range cases {
 		b := zh.GenBoundaryBatch(c.R, g.nd, g.cards, c.R.Bool())
@@ -480,8 +497,9 @@ func boundaryMerges(c *ctx, parts []int) {
 		e1.close()
 		e2.close()
 		if bad != "" {
-			c.Violation(fmt.Sprintf("C06 boundary merge: %d docs with term cardinalities %v, %d of term t0's documents deleted, chunk mode %d\n%s", g.nd, g.cards, len(drops), g.mode, clip(bad)), false)
-			return
+			c.Violation(fmt.Sprintf("%s boundary merge: %d docs with term cardinalities %v, %d of term t0's documents deleted, chunk mode %d\n%s", prop, g.nd, g.cards, len(drops), g.mode, clip(bad)), false)
+			return false
 		}
 	}
+	return true
 }
